@@ -77,16 +77,23 @@ Proof.
     rewrite F7, F8.
     replace (n =? 0) with false by (symmetry; apply Z.eqb_neq; lia).
     rewrite Hascii. cbn [negb]. rewrite Hres, Hlk.
-    unfold rest. rewrite (IH fuel g Hxs).
+    rewrite (IH fuel g Hxs).
     + reflexivity.
-    + rewrite !app_length in Hfuel. fold rest. assert (0 < length hdr)%nat by (unfold zlen in Lhdr; lia). lia.
+    + rewrite !app_length in Hfuel. assert (0 < length hdr)%nat by (unfold zlen in Lhdr; lia). lia.
 Qed.
+
+End TagFlag.
+
+Section Below24.
+Variable sub : list Z -> result (value * list Z).
+Variable ver : Z.
+Variable tbl22 tbl : list frame_desc.
 
 (* below v2.4 from_data does not look at the tag flag at all *)
 Lemma from_data_lt4 g fr flags d : ver < 4 -> from_data sub ver g fr flags d = from_data sub ver false fr flags d.
 Proof. intros H. unfold from_data. replace (4 <=? ver) with false by (symmetry; apply Z.leb_gt; lia). reflexivity. Qed.
 
-Lemma frames_loop_lt4 : ver < 4 -> forall fuel g data,
+Lemma frames_loop_lt4 bits : ver < 4 -> forall fuel g data,
   frames_loop sub ver fuel g tbl22 tbl bits data = frames_loop sub ver fuel false tbl22 tbl bits data.
 Proof.
   intros Hv. induction fuel as [|fuel IH]; intros g data; [reflexivity|].
@@ -108,7 +115,7 @@ Proof.
   cbn [andb]. rewrite unsynch_roundtrip. destruct (3 <=? ver); [|reflexivity].
   apply frames_loop_lt4. exact Hv.
 Qed.
-End TagFlag.
+End Below24.
 
 (* ---------------------------------------------------------------- v2.4: frames relying on the tag flag *)
 Section FlagOnly.
@@ -124,7 +131,7 @@ Definition as_unsynch (x : flagged) : stored :=
 Definition flagged_ok (x : flagged) : Prop :=
   stored_ok tbl 7 (as_plain x) /\ stored_ok tbl 7 (as_unsynch x) /\ frame_read sub 4 (g_fr x) (g_d x) <> Raise ENotImpl.
 
-Lemma from_data_tagflag fr own d :
+Lemma from_data_tagflag fr (own : bool) d :
   from_data sub 4 true fr (be_decode (if own then [0; 2] else [0; 0])) (fr_unsynch_encode d) = frame_read sub 4 fr d /\
   from_data sub 4 false fr (be_decode [0; 0]) d = frame_read sub 4 fr d.
 Proof.
